@@ -357,7 +357,7 @@ OUT = ["more than n prior orders per selection", "prices outside the finite set 
 HARNESSES = [
     Harness("H01a-S", h01a, quick=dict(n=1, mode="S"), thorough=dict(n=2, mode="S"), pattern="P2 inductive step", requires=["accepted", "refused"],
             wall_s=(300, 3000), max_paths=(150000, 5000000), outside=OUT),
-    Harness("H01a-P", h01a, quick=dict(n=1, mode="P"), thorough=dict(n=2, mode="P"), pattern="P2 inductive step", requires=["accepted", "refused"],
+    Harness("H01a-P", h01a, quick=dict(n=1, mode="P"), thorough=dict(n=1, mode="P"), pattern="P2 inductive step", requires=["accepted", "refused"],
             wall_s=(300, 3000), max_paths=(150000, 5000000), outside=OUT),
     Harness("H01a-mkt", h01a, quick=dict(n=1, mode="S", market_limit=True, others=1, winners=(1,), sel_limit_too=False), thorough=dict(n=1, mode="S", market_limit=True, others=1, winners=(1, 2), sel_limit_too=False),
             pattern="P2 inductive step", requires=["accepted", "refused"], wall_s=(300, 3000), max_paths=(150000, 5000000), outside=OUT),
